@@ -56,6 +56,8 @@ package utils
 //@   fresh r
 //@   ensures err != nil ==> r == nil
 //@   ensures err == nil ==> r != nil
+//@   ensures errWF(err)
+//@   ensures err == nil ==> r != nil
 
 //@ func MatchWildcardRegexp(query, exact) (re)
 //@   props C12
